@@ -1,6 +1,7 @@
 package core
 
 import (
+	"go/token"
 	"sort"
 	"strings"
 
@@ -336,6 +337,34 @@ func (p *Program) InAllContexts(site ssa.Instruction, vals []ssa.Value, within m
 		if depth > 8 || visiting[fn] {
 			return false
 		}
+		// validators: the site is only reached when an in-repository function returned a nil
+		// error; what holds at every `return nil` of that function holds here
+		for _, vc := range p.passedValidators(site.Block()) {
+			g := vc.Call.StaticCallee()
+			if visiting[g] || (within != nil && !within[g]) {
+				continue
+			}
+			rets := nilErrorReturns(g)
+			if len(rets) == 0 {
+				continue
+			}
+			tv := make([]ssa.Value, len(vals))
+			for i, v := range vals {
+				tv[i] = intoCallee(v, g, vc)
+			}
+			visiting[g] = true
+			all := true
+			for _, r := range rets {
+				if !rec(r, tv, depth+1) {
+					all = false
+					break
+				}
+			}
+			delete(visiting, g)
+			if all {
+				return true
+			}
+		}
 		var use []Ref
 		for _, r := range p.Refs(fn) {
 			if within != nil && !within[r.Instr.Parent()] {
@@ -360,6 +389,90 @@ func (p *Program) InAllContexts(site ssa.Instruction, vals []ssa.Value, within m
 		return true
 	}
 	return rec(site, vals, 0)
+}
+
+// passedValidators lists the static calls of repository functions whose error result is
+// known to be nil on entry to b (`if err := validate(x); err != nil { return … }`).
+func (p *Program) passedValidators(b *ssa.BasicBlock) []*ssa.Call {
+	var out []*ssa.Call
+	for _, f := range FactsAt(b) {
+		bin, ok := f.Cond.(*ssa.BinOp)
+		if !ok || !((bin.Op == token.NEQ && !f.Polarity) || (bin.Op == token.EQL && f.Polarity)) {
+			continue
+		}
+		var ev ssa.Value
+		switch {
+		case IsNilConst(bin.Y):
+			ev = bin.X
+		case IsNilConst(bin.X):
+			ev = bin.Y
+		default:
+			continue
+		}
+		ev = Resolve(ev)
+		if ex, isEx := ev.(*ssa.Extract); isEx {
+			if c, isC := ex.Tuple.(*ssa.Call); isC && ex.Index == c.Call.Signature().Results().Len()-1 {
+				ev = c
+			}
+		}
+		call, isC := ev.(*ssa.Call)
+		if !isC {
+			continue
+		}
+		g := call.Call.StaticCallee()
+		if g == nil || g.Blocks == nil || !p.inRepo(g) {
+			continue
+		}
+		res := g.Signature.Results()
+		if res.Len() == 0 || res.At(res.Len()-1).Type().String() != "error" {
+			continue
+		}
+		out = append(out, call)
+	}
+	return out
+}
+
+// nilErrorReturns lists the returns of g whose (last) error result is the nil constant; nil
+// when some return's error result is neither a nil constant nor a definite error (a
+// merged value): then nothing can be concluded.
+func nilErrorReturns(g *ssa.Function) []ssa.Instruction {
+	var out []ssa.Instruction
+	for _, b := range g.Blocks {
+		r, ok := b.Instrs[len(b.Instrs)-1].(*ssa.Return)
+		if !ok || len(r.Results) == 0 {
+			continue
+		}
+		e := r.Results[len(r.Results)-1]
+		if IsNilConst(e) {
+			out = append(out, r)
+			continue
+		}
+		if _, isPhi := Resolve(e).(*ssa.Phi); isPhi {
+			return nil
+		}
+		if ld, isLd := Resolve(e).(*ssa.UnOp); isLd && ld.Op == token.MUL {
+			return nil
+		}
+	}
+	return out
+}
+
+// intoCallee maps a caller value to the callee's frame at call: an argument becomes the
+// parameter; constants and globals stay; anything else is not expressible (nil).
+func intoCallee(v ssa.Value, g *ssa.Function, call *ssa.Call) ssa.Value {
+	if v == nil {
+		return nil
+	}
+	for i, a := range call.Call.Args {
+		if i < len(g.Params) && SameValue(a, v) {
+			return g.Params[i]
+		}
+	}
+	switch Resolve(v).(type) {
+	case *ssa.Const, *ssa.Global, *ssa.Function:
+		return v
+	}
+	return nil
 }
 
 // ExecSites lists the instructions of root's own body (or of the closures
